@@ -185,6 +185,44 @@ func ruleHeader(c *Ctx) {
 	wantR := []string{"byte", "uvarint→", "uvarint→dst.Tape", "uvarint→dst.Strings.B", "block→dst.Strings.B", "uvarint→dst.Message", "block→dst.Message", "uvarint→s.tagsBuf", "block→s.tagsBuf", "uvarint→s.valuesBuf", "block→s.valuesBuf"}
 	c.Check(strings.Join(rseq, " | ") == strings.Join(wantR, " | "), "Deserialize:sections", p.Pos(r), "version, total, tape, then (size, block) for strings, message, tags, values — each block decoded into the buffer sized by the preceding field",
 		"the reader's section sequence is "+strings.Join(rseq, " | "), "any blob")
+	// every return of Serialize lies behind the join with the compressors (and therefore behind the whole tape walk):
+	// Serialize has no error result, so any other return hands back a truncated blob as if it were complete
+	{
+		fg := p.FGOf(w)
+		waitBlk := -1
+		ast.Inspect(w.Body, func(n ast.Node) bool {
+			if _, ok := n.(*ast.FuncLit); ok {
+				return false
+			}
+			if call, ok := n.(*ast.CallExpr); ok && strings.HasSuffix(p.CalleeName(call), "sync.WaitGroup).Wait") {
+				if b, _, ok := fg.Where(call); ok {
+					waitBlk = b
+				}
+			}
+			return true
+		})
+		if waitBlk < 0 {
+			c.Undecided("Serialize:returns", p.Pos(w), "the join with the compressor goroutines (wg.Wait) was not found")
+		} else {
+			var early []string
+			for _, rb := range fg.ReturnBlocks() {
+				if len(rb.Nodes) == 0 {
+					continue
+				}
+				if _, isRet := rb.Nodes[len(rb.Nodes)-1].(*ast.ReturnStmt); !isRet {
+					continue // a panic ends the function without handing anything back
+				}
+				if rb.Index != int32(waitBlk) && fg.ReachWithoutBlock(0, int(rb.Index), waitBlk) {
+					pos := p.Pos(w)
+					if len(rb.Nodes) > 0 {
+						pos = p.Pos(rb.Nodes[len(rb.Nodes)-1])
+					}
+					early = append(early, pos)
+				}
+			}
+			c.Check(len(early) == 0, "Serialize:returns", p.Pos(w), "every return is behind wg.Wait()", "Serialize can return without having waited for its compressors (return at "+strings.Join(early, ", ")+"): the caller gets an incomplete blob as a regular result", "any document on that path")
+		}
+	}
 	// string table: a hit is used only after a bounds check and bytes.Equal; the same bytes go to the table buffer and the block writer
 	ix := p.Func("Serializer.indexString")
 	if ix == nil {
